@@ -4,6 +4,14 @@ import json, os
 V = os.path.dirname(os.path.dirname(os.path.abspath(__file__)))
 
 CHECKS = {
+ "C02": dict(
+    technique="runtime oracle: exact Fraction ratios from an independent reference model vs real convert in Fraction/Decimal/float registries; law monitors; cache audit",
+    text="Every ordered same-dimension pair of canonical multiplicative units (about 8000) is converted in the Fraction registry and compared with == "
+         "(and result type) against ratios computed by an independent reader; the same pairs in Decimal (1e-22) and float (1e-12, max ulp reported); "
+         "identity/inverse/path laws, prefix-spelling x unit-spelling products, compound units, generated files with factors known by construction; "
+         "every root_units and conversion_factor cache entry left behind is audited key and value.",
+    note="trusts harness/refmodel.py (cross-validated in-run against truth-by-construction files); tainted (fractional-power) units at 1e-9",
+    ref="4/C02"),
  "C01": dict(
     technique="runtime oracle: independent reference-model dimension vectors vs observed outcome of convert and 6 predicates; cache audit",
     text="All ordered pairs of the ~390 canonical multiplicative units are converted by the real registry and the outcome class "
